@@ -95,8 +95,9 @@ pub fn call(f: &str, args: &[Vec<QR>]) -> Result<Vec<QR>, String> {
         "substring" => {
             let idx = |k: usize| -> Result<usize, String> {
                 match args.get(k).and_then(|a| first_scalar(a)) {
-                    Some(V::Int(n)) => Ok((*n as u16) as usize),
-                    Some(V::Float(x)) => Ok((*x as u16) as usize),
+                    // an index that is negative or beyond every string is out of bounds (docs: such strings are skipped)
+                    Some(V::Int(n)) => Ok(usize::try_from(*n).unwrap_or(usize::MAX)),
+                    Some(V::Float(x)) => Ok(if *x < 0.0 || x.is_nan() { 0 } else if *x >= 1e18 { usize::MAX } else { x.trunc() as usize }),
                     _ => Err("substring index is not a number".into()),
                 }
             };
